@@ -911,7 +911,7 @@ func (s *tcpSys) checkState(ts []any) []Mismatch {
 			return []Mismatch{{"locks", "an allocation lock is held at a quiescent point"}}
 		}
 		if eu, _ := ea["user"].(string); eu != al.VerifUserID() {
-			ms = append(ms, Mismatch{"alloc~", fmt.Sprintf("%s owner: spec %s, server %s", c, eu, al.VerifUserID())})
+			ms = append(ms, Mismatch{"alloc.owner", fmt.Sprintf("%s owner: spec %s, server %s", c, eu, al.VerifUserID())})
 		}
 		ep, _ := perm[c].(map[string]any)
 		got := map[string]bool{}
